@@ -208,16 +208,13 @@ class Result:
 
 
 class _Lra:
+    """rows (== 0) over monomial variables; every check builds a FRESH z3 solver (default SMT core with the new
+    arithmetic solver): the incremental QF_LRA solver (old simplex) occasionally never returns on these instances"""
+
     def __init__(self, timeout_ms):
-        import os
-        mode = os.environ.get("VERIF_LRA", "lra")
-        if mode == "solve-eqs":
-            # Gaussian elimination of the equalities inside z3, then the LRA core on what is left
-            self.s = z3.Then("simplify", "solve-eqs", "smt").solver()
-        else:
-            self.s = z3.SolverFor("QF_LRA")
-        self.s.set("timeout", int(timeout_ms))
+        self.timeout_ms = int(timeout_ms)
         self.mon = {}
+        self.rows = []
 
     def lin(self, p):
         terms = []
@@ -236,23 +233,70 @@ class _Lra:
         return z3.Sum(terms) if len(terms) > 1 else terms[0]
 
     def add_row(self, p):
-        self.s.add(self.lin(p) == 0)
+        self.rows.append(self.lin(p) == 0)
 
-    def check_goals(self, goals):
+    def _solver(self):
+        s = z3.Solver()
+        s.set("timeout", self.timeout_ms)
+        try:
+            s.set("arith.solver", 6)
+        except z3.Z3Exception:
+            pass
+        s.add(self.rows)
+        return s
+
+    def _external(self, smt2):
+        """larger instances go to a z3 process with a HARD time limit (the in-process timeout is not always honoured
+        on satisfiable, heavily under-determined systems); cvc5 gets the same text when z3 gives up"""
+        import os, subprocess, tempfile, shutil
+        d = tempfile.mkdtemp(prefix="verif_lra_")
+        path = os.path.join(d, "q.smt2")
+        try:
+            with open(path, "w") as f:
+                f.write("(set-logic QF_LRA)\n" + smt2)
+            tsec = max(5, self.timeout_ms // 1000)
+            for cmd in (["z3-new", f"-T:{tsec}", "smt.arith.solver=6", path], ["cvc5", f"--tlimit={tsec * 1000}", path]):
+                if shutil.which(cmd[0]) is None:
+                    continue
+                try:
+                    out = subprocess.run(cmd, capture_output=True, text=True, timeout=tsec + 10).stdout.strip().split("\n")
+                except subprocess.TimeoutExpired:
+                    continue
+                first = out[0].strip() if out else ""
+                if any("(error" in line for line in out):
+                    continue
+                if first in ("sat", "unsat"):
+                    return first
+            return "unknown"
+        finally:
+            shutil.rmtree(d, ignore_errors=True)
+
+    def check_goals(self, goals, detail=True):
         """returns (overall, per-goal list) with values 'unsat'/'sat'/'unknown'"""
-        self.s.push()
-        self.s.add(z3.Or([self.lin(g) != 0 for g in goals]))
-        r = str(self.s.check())
-        self.s.pop()
+        s = self._solver()
+        s.push()
+        s.add(z3.Or([self.lin(g) != 0 for g in goals]))
+        import os
+        if os.environ.get("VERIF_DUMP_LRA"):
+            self.ndump = getattr(self, "ndump", 0) + 1
+            with open(os.environ["VERIF_DUMP_LRA"] + f".{self.ndump}.smt2", "w") as f:
+                f.write("(set-logic QF_LRA)\n" + s.to_smt2())
+        if len(self.rows) > 400:
+            r = self._external(s.to_smt2())
+        else:
+            r = str(s.check())
+        s.pop()
         if r == "unsat":
             return r, ["unsat"] * len(goals), 1
+        if len(goals) == 1 or not detail:
+            return r, [r] * len(goals), 1
         per = []
         q = 1
         for g in goals:
-            self.s.push()
-            self.s.add(self.lin(g) != 0)
-            per.append(str(self.s.check()))
-            self.s.pop()
+            s.push()
+            s.add(self.lin(g) != 0)
+            per.append(str(s.check()))
+            s.pop()
             q += 1
         return r, per, q
 
@@ -293,7 +337,7 @@ def prove_with_cancellation(hyps, goals, *, inv_atoms=None, log=None, budget_s=3
 
 def prove(hyps, goals, *, alg_atoms=None, sq_atoms=None, inv_atoms=None, defined=None, extra_deg=2, maxdeg=None,
           sq_mode="all",
-          max_rounds=24, max_rows=120000, timeout_ms=120000, budget_s=300.0, max_terms=3_000_000, log=None):
+          max_rounds=24, max_rows=120000, timeout_ms=60000, budget_s=300.0, max_terms=3_000_000, log=None):
     """Try to show that every goal is zero given hyps (all == 0).
 
     Pre-processing (all sound): inverse atoms are cleared by multiplying with their non-zero bases
@@ -324,6 +368,25 @@ def prove(hyps, goals, *, alg_atoms=None, sq_atoms=None, inv_atoms=None, defined
     derived = derive_pairwise(hyps, set(defined or ()))
     res.derived = len(derived)
     hyps = derived + hyps
+    # only hypotheses connected to the goals through contract-defined variables can contribute (a subset of the
+    # hypotheses is still a set of consequences, so dropping the rest is sound)
+    dset = set(defined or ())
+    if dset:
+        need = set()
+        for g in goals:
+            need |= (g.vars() & dset)
+        hv = [h.vars() & dset for h in hyps]
+        used = [False] * len(hyps)
+        changed = True
+        while changed:
+            changed = False
+            for i, vs in enumerate(hv):
+                if not used[i] and (vs & need or not vs):
+                    used[i] = True
+                    if not vs <= need:
+                        need |= vs
+                    changed = True
+        hyps = [h for h, u_ in zip(hyps, used) if u_]
     goals_all = []
     res.cleared = 0
     for g in goals:
@@ -384,7 +447,7 @@ def prove(hyps, goals, *, alg_atoms=None, sq_atoms=None, inv_atoms=None, defined
         rel |= new
         frontier = new
         ts = time.time()
-        overall, per, q = lra.check_goals(goals)
+        overall, per, q = lra.check_goals(goals, detail=False)
         res.solver_s += time.time() - ts
         res.queries += q
         res.rounds = rd + 1
